@@ -20,6 +20,22 @@ T["C20"] = dict(
     technique="TLA+ state machine + TLC exhaustive model checking; spec->code behaviour replay; code->spec trace validation",
     ref="6. C20")
 
+T["C03"] = dict(
+    text="spec/Terms.tla transcribes the documented definition of all 20 shape terms (+Constant) as a case analysis over infinitesimally shifted points (Pos) that returns the closed form of the selected piece as a kernel expression; TLC enumerates every valid parameter tuple over a dyadic and a decimal palette (both directions, coincident vertices, infinite shoulders) x heights x every breakpoint with both neighbours, midpoints, +-inf, NaN and checks range, NaN-iff-NaN, declared monotonicity and continuity on the model. Every state is replayed into Term.membership at the actual doubles (parameter double, nextafter) and compared with the closed form evaluated exactly at those doubles; scalar/1-D/2-D; fresh vs re-configured objects; seeded random doubles in every region.",
+    note="Bounded parameter palettes; exp/cos/sqrt/pow evaluated by libm on exact arguments (1e-9; 1e-12 for rational pieces; sqrt terms compared on the radicand next to their end points). Restricted parameterisations listed in the evidence assumptions.",
+    technique="TLA+ specification of the documented case analysis + TLC enumeration with invariants; spec->code replay at breakpoints/neighbours/random doubles",
+    ref="6. C03")
+T["C04"] = dict(
+    text="spec/Norms.tla transcribes the 16 documented formulas into exact extended-real arithmetic; TLC checks all norm laws (range, commutativity, monotonicity, associativity, identity, annihilator, T<=min, S>=max, duality) on every pair/triple of the dyadic grid k/16 (thorough k/32); every table entry is replayed bit-for-bit into Norm.compute as float, numpy scalar, 1-D array and 2-D broadcast; seeded random and boundary doubles are compared with the formula evaluated exactly on Fraction(double) and the laws re-checked on the code's outputs.",
+    note="Exact on the dyadic grid (binary64 arithmetic is exact there up to one correctly rounded division); off the grid 1e-12 tolerance and branch-boundary margin. NaN operands are outside the property.",
+    technique="TLA+ exact-arithmetic specification + TLC exhaustive grid check of the laws; full-table replay",
+    ref="6. C04")
+T["C05"] = dict(
+    text="spec/Hedges.tla gives the 6 hedges as kernel expressions (exact when rational); TLC checks range, fixed points, monotonicity, very<=id<=somewhat, the two inverse pairs and involution on the grid k/32 (thorough k/128); the table is replayed into Hedge.hedge (float, numpy scalar, 1-D, 2-D); 0.5 with both floating-point neighbours, the end points and seeded random doubles are compared with the formulas evaluated exactly, and the relations re-checked on the code's outputs.",
+    note="sqrt by libm on TLC's exact argument (1e-12).",
+    technique="TLA+ specification + TLC exhaustive grid check; table replay",
+    ref="6. C05")
+
 PLANNED = {}
 
 def main():
